@@ -107,6 +107,16 @@ def shard(shard_i, nshards, payload):
                 perms = list(itertools.permutations(paths[:4]))
                 arglists.append(("files-permuted", list(rng.choice(perms)) + paths[4:]))
                 arglists.append(("duplicated", paths + [paths[0]]))
+            # one file named more than once, in other spellings of its path: it is still one file
+            base_ = os.path.basename(d)
+            respelled = [os.path.join(d, ".", os.path.basename(paths[0])), d + "//" + os.path.basename(paths[0]),
+                         os.path.join(d, "..", base_, os.path.basename(paths[0]))]
+            arglists.append(("dir+file-inside", [d, rng.choice(respelled)]))
+            arglists.append(("file+respelled", paths + [rng.choice(respelled)]))
+            alias = os.path.join(tmp, "alias%d" % i)
+            if not os.path.lexists(alias):
+                os.symlink(d, alias)
+            arglists.append(("dir+symlink-to-dir", [d, alias]))
             results = {}
             for name, args in arglists:
                 r = core.run_cli(["check"] + args, tmp)
@@ -122,7 +132,7 @@ def shard(shard_i, nshards, payload):
                 if not vs:
                     if expect_fail and r["rc"] == 0:
                         res.violation("accepted-faulty-set", "check:%s:accepted:%s" % (name, fault), {"stdout": r["out"][:80]}, case)
-                    elif not expect_fail and r["rc"] != 0 and name != "duplicated":
+                    elif not expect_fail and r["rc"] != 0 and name not in ("duplicated",):
                         codes = CODE.findall(r["err"])
                         if set(codes) - {"P9999"}:
                             res.violation("rejected-valid-set", "check:%s:rejected:%s" % (name, ",".join(sorted(set(codes)))),
@@ -169,6 +179,8 @@ def shard(shard_i, nshards, payload):
                         res.distinct.add(core.key_of(cmd, name, fault, i))
             shutil.rmtree(d, ignore_errors=True)
             shutil.rmtree(os.path.join(tmp, "elsewhere%d" % i), ignore_errors=True)
+            if os.path.lexists(os.path.join(tmp, "alias%d" % i)):
+                os.unlink(os.path.join(tmp, "alias%d" % i))
         # ---- odd paths (every shard runs its slice of a small fixed list)
         odd = []
         base = os.path.join(tmp, "odd")
@@ -182,10 +194,27 @@ def shard(shard_i, nshards, payload):
             os.symlink(os.path.join(base, "nowhere.st"), dangling)
         emptyfile = os.path.join(base, "empty.st")
         open(emptyfile, "w").write("")
+        # directories with an entry that cannot be read: a dangling link (an editor's lock file), a name that is not
+        # valid UTF-8; next to a good file
+        dlink = os.path.join(base, "dir_dangling")
+        os.makedirs(dlink, exist_ok=True)
+        open(os.path.join(dlink, "good.st"), "w").write("PROGRAM p VAR x : INT; END_VAR x := 1; END_PROGRAM\n")
+        if not os.path.lexists(os.path.join(dlink, ".#main.st")):
+            os.symlink("someone@host.1234:567", os.path.join(dlink, ".#main.st"))
+        dbytes = os.path.join(base, "dir_nonutf8")
+        os.makedirs(dbytes, exist_ok=True)
+        open(os.path.join(dbytes, "good.st"), "w").write("PROGRAM p VAR x : INT; END_VAR x := 1; END_PROGRAM\n")
+        try:
+            open(os.path.join(os.fsencode(dbytes), b"caf\xe9.st"), "w").write("PROGRAM q VAR x : INT END_VAR END_PROGRAM\n")
+            nonutf8 = True
+        except OSError:
+            nonutf8 = False
         for cmd in ("check", "echo", "tokenize"):
             odd += [(cmd, "missing", [os.path.join(base, "missing.st")]), (cmd, "missing+good", [good, os.path.join(base, "missing.st")]),
                     (cmd, "dangling-symlink", [dangling]), (cmd, "empty-dir", [empty]), (cmd, "no-args", []),
-                    (cmd, "empty-file", [emptyfile]), (cmd, "good", [good])]
+                    (cmd, "empty-file", [emptyfile]), (cmd, "good", [good]), (cmd, "dir-with-dangling-symlink", [dlink])]
+            if nonutf8:
+                odd.append((cmd, "dir-with-non-utf8-name-of-bad-file", [dbytes]))
         for j, (cmd, name, args) in enumerate(odd):
             if j % nshards != shard_i:
                 continue
@@ -202,7 +231,8 @@ def shard(shard_i, nshards, payload):
             for k_, sig, det in vs:
                 res.violation(k_, "%s:%s" % (sig, name), det, case)
             # no file at all: `check` has nothing to accept (P0030); echo / tokenize hold vacuously
-            must_fail = name in ("missing", "missing+good", "dangling-symlink") or \
+            must_fail = name in ("missing", "missing+good", "dangling-symlink", "dir-with-dangling-symlink",
+                                 "dir-with-non-utf8-name-of-bad-file") or \
                 (cmd == "check" and name in ("empty-dir", "no-args"))
             if must_fail and r["rc"] == 0:
                 res.violation("accepted-faulty-set", "%s:%s:exit0" % (cmd, name), {"stdout": r["out"][:80]}, case)
